@@ -1,7 +1,7 @@
 (* C03 — Operations refine built-in dict/list: same results, same errors, same content.  Property theorems only. *)
 From Coq Require Import List Bool ZArith.
 From SC Require Import Model.Val Model.Plain Model.Ops Model.Valid Model.Class Model.Tree Model.Machine.
-From SC Require Import Proofs.TreeDefs Proofs.MachineDefs Proofs.MachineRefine Gen.ClassTable Gen.Obligations.
+From SC Require Import Proofs.TreeDefs Proofs.MachineDefs Proofs.MachineRefine Gen.ClassTable Gen.Obligations Model.Api Gen.ApiSurface.
 Import ListNotations.
 
 (* the body of EVERY list operation (reads, slices with any start/stop/step, negative and out-of-range
@@ -87,3 +87,11 @@ Example C03_lt_is_not_gt :
   list_compare CLt [VS (SInt 1)] (VL [VS (SInt 2)]) = Ok true
   /\ list_compare CGt [VS (SInt 1)] (VL [VS (SInt 2)]) = Ok false.
 Proof. split; reflexivity. Qed.
+
+(* the "full MutableMapping / MutableSequence surface" is what the operation languages cover: every public name
+   that any of the 18 concrete classes exposes today (regenerated from /repo on every run) is an operation of
+   Ops.lop / Ops.dop, or belongs to the attribute / buffering / threading interfaces modelled elsewhere, or is
+   class machinery.  A new public method makes this obligation fail: it would be outside every theorem. *)
+Theorem C03_api_surface_covered_today : api_covered surfaces = true.
+Proof. exact gen_api_covered. Qed.
+Print Assumptions C03_api_surface_covered_today.
